@@ -8,7 +8,8 @@
 (* output location writable or not.                                        *)
 (* decompress: archive valid / truncated / not zstd / missing, output path *)
 (* explicit or defaulted (archive name without its last extension, in the  *)
-(* current directory).                                                     *)
+(* current directory).  Both: the output path is free, or holds an older   *)
+(* file shorter / longer than the new result.                              *)
 (* Specified effects: status (0 or not), never a panic, on success the     *)
 (* output is complete (round trip restores the input, the reference        *)
 (* decoder accepts the archive); a failed compress leaves no file at the   *)
@@ -22,18 +23,23 @@ Inputs == {"missing", "empty", "small", "multi"}
 OutPaths == {"explicit", "default"}
 OutDirs == {"writable", "unwritable"}
 Archives == {"valid", "truncated", "notzstd", "missing"}
+\* what is at the output path before the command runs: nothing, or an unrelated file shorter / longer than the result.
+\* A successful command REPLACES it: the output is exactly the result, with nothing of the old file left over.
+Priors == {"none", "shorter", "longer"}
 
 CompressOk(s) == s.level \in Implemented /\ s.input # "missing" /\ s.outdir = "writable"
-CompressCases == {[cmd |-> "compress", level |-> l, input |-> i, out |-> o, outdir |-> d,
+CompressCases == UNION {{[cmd |-> "compress", level |-> l, input |-> i, out |-> o, outdir |-> d, prior |-> p,
                    expect |-> [ok |-> CompressOk([level |-> l, input |-> i, outdir |-> d]),
                                output_created |-> CompressOk([level |-> l, input |-> i, outdir |-> d]),
+                               output_exact |-> CompressOk([level |-> l, input |-> i, outdir |-> d]),
                                panic |-> FALSE]]
-                  : l \in Levels, i \in Inputs, o \in OutPaths, d \in OutDirs}
+                  : l \in Levels, i \in Inputs, o \in OutPaths, d \in OutDirs} : p \in Priors}
 \* the default output of compress lives next to the input: it cannot be unwritable independently of the input directory
-WellPosed(c) == ~(c.out = "default" /\ c.outdir = "unwritable")
-DecompressCases == {[cmd |-> "decompress", archive |-> a, out |-> o, content |-> c,
+\* and nothing can already be there when the location does not exist
+WellPosed(c) == ~(c.out = "default" /\ c.outdir = "unwritable") /\ ~(c.prior # "none" /\ c.outdir = "unwritable")
+DecompressCases == UNION {{[cmd |-> "decompress", archive |-> a, out |-> o, content |-> c, prior |-> p,
                      expect |-> [ok |-> a = "valid", roundtrip |-> a = "valid", panic |-> FALSE]]
-                    : a \in Archives, o \in OutPaths, c \in {"empty", "small", "multi"}}
+                    : a \in Archives, o \in OutPaths, c \in {"empty", "small", "multi"}} : p \in Priors}
 Cases == {c \in CompressCases : WellPosed(c)} \cup DecompressCases
 
 \* the property on the specification: success is claimed only for implemented levels; "no level" is one of them
